@@ -11,13 +11,6 @@ import Pithos.Lemmas.SigV4
 namespace Pithos.C28
 open Pithos.SigV4
 
-/-- idealised hash: no two inputs share a digest -/
-def CollisionFree (h : Bytes → Bytes) : Prop := ∀ a b, h a = h b → a = b
-
-/-- idealised MAC: a tag determines the key and the message it was computed for — nobody can
-present a valid tag for a message (or under a key) other than the one it was made for -/
-def Unforgeable (mac : Bytes → Bytes → Bytes) : Prop := ∀ k m k' m', mac k m = mac k' m' → k = k' ∧ m = m'
-
 /-- **canonical_injective.** The canonical request is an injective encoding of the signed
 components: method, canonical URI, canonical query string, the list of signed headers with their
 canonical values, and the payload hash. -/
@@ -165,22 +158,7 @@ theorem presigned_validity_bounded (r : Req) (p : SigParams) (hp : parseSigParam
 
 -- ---------------------------------------------------------------- toy instances (non-vacuity)
 
-/-- toy hash: the identity -/
-def toySha (b : Bytes) : Bytes := b
-
-/-- toy MAC: unary length of the key, a zero, the key, the message -/
-def toyMac (k m : Bytes) : Bytes := List.replicate k.length 1 ++ 0 :: (k ++ m)
-
-example : CollisionFree toySha := fun _ _ h => h
-
-theorem toyMac_unforgeable : Unforgeable toyMac := by
-  intro k m k' m' h
-  unfold toyMac at h
-  obtain ⟨h1, h2⟩ := split_unique 0 _ _ _ _ (by simp) (by simp) h
-  have hl : k.length = k'.length := by
-    have := congrArg List.length h1
-    simpa using this
-  exact List.append_inj h2 hl
+example : CollisionFree toySha := toySha_collisionFree
 
 example : Unforgeable toyMac := toyMac_unforgeable
 
